@@ -15,4 +15,5 @@ void registerAll()
     reg_lifed();
     reg_tls();
     reg_tlsraw();
+    reg_sockcopy();
 }
